@@ -64,7 +64,8 @@ VARIANTS = [
       "                                 minute=(other.minute if other.minute is not None\n                                         else self.second),", ["C16.FIELDS"]),
     V("c16-abs-wrong", ["C16"], "break", RD, "                              hours=abs(self.hours),", "                              hours=abs(self.minutes),", ["C16.FIELDS"]),
     V("c16-fix-60", ["C16", "C09"], "break", RD, "        if abs(self.seconds) > 59:", "        if abs(self.seconds) > 60:", ["C16.FIX", "C09.NORM"]),
-    V("c16-fix-ge", ["C16"], "benign", RD, "        if abs(self.seconds) > 59:", "        if abs(self.seconds) >= 60:", []),
+    # (withdrawn twin: `abs(self.seconds) >= 60` for `> 59` is NOT behaviour preserving - for 59 < |seconds| < 60 the original
+    #  runs the carry with a float zero and turns an int `minutes` into a float; C16.TABLE is right to report it)
     V("c16-eq-drop-field", ["C16"], "break", RD, "                self.leapdays == other.leapdays and\n", "", ["C16.EQHASH"]),
     # ------------------------------------------------------------------ C04 / C05 / C06 / C08
     V("c04-fold-dropped", ["C04"], "break", TZ, "        return enfold(dt_out, fold=int(fold))", "        return dt_out", ["C04.FOLD"]),
@@ -117,6 +118,7 @@ VARIANTS = [
       "        with cls._cache_lock:\n            instance = cls.__instances.get(key, None)\n            if instance is None:\n                instance = cls.__instances.setdefault(key,\n                                                      cls.instance(name, offset))\n\n            cls.__strong_cache[key] = cls.__strong_cache.pop(key, instance)\n\n            # Remove an item if the strong cache is overpopulated\n            if len(cls.__strong_cache) > cls.__strong_cache_size:\n                cls.__strong_cache.popitem(last=False)\n",
       "        cls._cache_lock.acquire()\n        try:\n            instance = cls.__instances.get(key, None)\n            if instance is None:\n                instance = cls.__instances.setdefault(key,\n                                                      cls.instance(name, offset))\n\n            cls.__strong_cache[key] = cls.__strong_cache.pop(key, instance)\n\n            # Remove an item if the strong cache is overpopulated\n            if len(cls.__strong_cache) > cls.__strong_cache_size:\n                cls.__strong_cache.popitem(last=False)\n        finally:\n            cls._cache_lock.release()\n", []),
     V("c19-method-lower", ["C19"], "break", EA, "    if not (1 <= method <= 3):", "    if not (method <= 3):", ["C19.METHOD"]),
-    V("c19-method-in", ["C19"], "benign", EA, "    if not (1 <= method <= 3):", "    if method not in (1, 2, 3):", []),
+    # (withdrawn twin: `method not in (1, 2, 3)` for `not (1 <= method <= 3)` rejects 2.5 / True-like values the original
+    #  lets through; C19.FORMULA is right to report it)
     V("c19-day-32", ["C19"], "break", EA, "    d = 1 + (p + 27 + (p + 6)//40) % 31", "    d = 1 + (p + 27 + (p + 6)//40) % 32", ["C19.RANGE"]),
 ]
